@@ -22,6 +22,11 @@ CLAIMED["C02"] = ("exploration",
  "Generated fragments and full documents over block/inline/void/table/raw-text elements, attributes and text spelled with many character-reference variants are rendered through all seven entry points; the HTML5 parse of the output must equal the parse of the source (elements, attribute names and values, text, doctype; whitespace and comments aside). With holes, the expected tree is the parse of the source with each hole replaced by the escaped fmt.Sprint of its value; v-html output must contain its value verbatim and parse to the value's tree. Sampled, not exhaustive.",
  "Trusts x/net/html parser+renderer (also used to filter to parser-stable sources). Whitespace at the ends of text runs and attribute values is treated as insignificant. <br> is an open known finding (serialised as <br></br>, pinned by the repository's fixtures) and excluded from generation.",
  "DESIGN.md §6 C02")
+CLAIMED["C12"] = ("fault_enumeration",
+ "fault enumeration over a program catalogue: failing writer at every byte offset, cancelled context, failure injected into every file; validity predicate (error => zero bytes, nil => complete document, writer failure => error)",
+ "For every catalogue program (succeeding and failing, failure early/late/in loop/include/layout) and every Template entry point, the check enumerates: a plain run, a context cancelled before the call, a failing expression injected at the start and end of every file, and a destination writer that fails at every single byte offset of the reference output. Error returns must leave the writer untouched, nil returns must have delivered the complete document (END marker), and any writer failure must surface as a non-nil error. Exhaustive over catalogue x entry points x offsets; the catalogue itself is a finite sample of templates.",
+ "Scope is the Template render methods named in the statement. Completeness is recognised by an END marker element that ends every catalogue program. Error wording is not asserted.",
+ "DESIGN.md §6 C12")
 NOT_YET = "check under construction in this session; not claimed until it is built and silent on the unchanged tree"
 
 def main():
